@@ -271,6 +271,12 @@ pub fn execute(h: &History, want: &str, rep: &mut Report) -> Option<Violation> {
                 if mask >> (note % 12) & 1 == 0 {
                     fail!("C07", "forbidden-note", format!("convert({}) reported note {} (pitch class {}) which is forbidden in the scale {:#05x}; previous note {:?}", v, note, note % 12, mask, prev), i);
                 }
+                // ---- C08: the first conversion of an instance is history-free, however its scale was set up ----
+                if prev.is_none() {
+                    if let Err(why) = nearest_ok(mask, *v, note) {
+                        fail!("C08", "nearest", format!("first conversion of this instance, convert({}) = note {}: {}", v, note, why), i);
+                    }
+                }
                 // ---- C09: window model ----
                 let v64 = *v as f64;
                 let mut path = 1usize; // 0 kept, 1 outside window, 2 cached note forbidden, 3 no history
@@ -413,7 +419,7 @@ fn rand_mask(r: &mut Rng) -> u16 {
 
 fn rand_voltage(r: &mut Rng) -> f32 {
     match r.below(16) {
-        0 => *r.pick(&[0.0f32, 10.0, -0.0, 10.000_001, -1e-6, 5.0, 1.0, 9.999_999, f32::NAN, f32::INFINITY, f32::NEG_INFINITY, 1e30, -1e30, 1e-40, 0.083_333_336, 9.916_667]),
+        0 => *r.pick(&[0.0f32, 10.0, -0.0, 10.000_001, -1e-6, 5.0, 1.0, 9.999_999, f32::NAN, f32::INFINITY, f32::NEG_INFINITY, 1e30, -1e30, 1e-40, 0.083_333_336, 9.916_667, f32::MIN, f32::MAX]),
         1 => r.uniform(-0.5, 0.1) as f32,
         2 => r.uniform(9.9, 10.6) as f32,
         3 => r.any_f32(),
@@ -773,7 +779,7 @@ pub fn first_conversions(ctx: &Ctx, want: &str) -> Report {
         let mut rep = Report::new();
         let pre = &preludes[j];
         let step = if small { 0.02 } else { 0.0005 };
-        let mut spans: Vec<(f64, f64)> = vec![(-0.02, 0.30), (0.95, 1.12), (9.85, 10.12)];
+        let mut spans: Vec<(f64, f64)> = vec![(-0.02, 2.2), (9.7, 10.12)];
         if small {
             spans.truncate(1);
         }
@@ -788,6 +794,74 @@ pub fn first_conversions(ctx: &Ctx, want: &str) -> Report {
                 rep.count("quant.first_conversion_histories", 1);
                 v += step;
             }
+        }
+        rep
+    })
+}
+
+/// exact ties and the top of the range: (a) a held note is forbidden and the same or a neighbouring input lies exactly
+/// (to the microvolt, and +-1 uV) midway between the nearest allowed notes below and above; (b) with C forbidden the
+/// notes 121..131 above 10 V are reached, held inside their window by inputs above 10 V, and released outside it
+pub fn ties_and_top(ctx: &Ctx, want: &str) -> Report {
+    let small = ctx.tier == Tier::Small;
+    let n_scales = ctx.budget(2, 60, 600) as usize;
+    let shards = if small { 1 } else { 16 };
+    par_shards(ctx, shards, |sh| {
+        let mut rep = Report::new();
+        let mut r = Rng::derive(ctx.seed, "quant.ties", sh as u64);
+        for _ in 0..(n_scales + shards - 1) / shards {
+            // (a) ties
+            let mask = loop {
+                let m = rand_mask(&mut r);
+                if m.count_ones() >= 3 {
+                    break m;
+                }
+            };
+            let members: Vec<u8> = (0..12u8).filter(|n| mask >> n & 1 == 1).collect();
+            let pc = *r.pick(&members);
+            let oct = r.below(10) as i64;
+            let held = oct * 12 + pc as i64;
+            // nearest allowed notes below and above once pc is forbidden
+            let m2 = mask & !(1 << pc);
+            let below = (0..held).rev().find(|n| m2 >> (n % 12) & 1 == 1);
+            let above = (held + 1..=131).find(|n| m2 >> (n % 12) & 1 == 1);
+            if let (Some(lo), Some(hi)) = (below, above) {
+                let mid = (lo + hi) as f64 / 24.0;
+                let mut ops = mask_to_ops(mask);
+                for d in [0.0, 1e-6, -1e-6, 2e-6, -2e-6] {
+                    ops.push(Op::Convert((held as f64 / 12.0 + 0.02) as f32));
+                    ops.push(Op::Forbid(vec![pc]));
+                    ops.push(Op::Convert((mid + d) as f32));
+                    ops.push(Op::Convert((held as f64 / 12.0) as f32));
+                    ops.push(Op::Allow(vec![pc]));
+                }
+                // the same tie on an instance whose cached note is one of the two tied notes
+                for first in [lo, hi] {
+                    ops.push(Op::Forbid(vec![pc]));
+                    ops.push(Op::Convert((first as f64 / 12.0 + 0.01) as f32));
+                    ops.push(Op::Convert(mid as f32));
+                    ops.push(Op::Convert(((lo as f64) / 12.0 + (hi - lo) as f64 / 24.0) as f32));
+                    ops.push(Op::Allow(vec![pc]));
+                }
+                run_and_record(&History { ops }, want, &mut rep, false);
+                rep.count("quant.tie_histories", 1);
+            }
+            // (b) the notes above 10 V
+            let keep = 1 + r.below(11) as u8; // a pitch class other than C
+            let mut ops = vec![Op::Forbid((0..12u8).filter(|n| *n != keep).chain(std::iter::once(keep)).collect())];
+            let top = 120 + keep as i64; // only `keep` allowed: 10.0 V converts to the nearest of (108+keep, 120+keep)
+            ops.push(Op::Convert(10.0));
+            ops.push(Op::Allow(vec![0]));
+            for dv in [0.0, 0.03, 0.08, -0.004, 0.0875, 0.095, -0.02, 0.5] {
+                ops.push(Op::Convert((top as f64 / 12.0 + dv) as f32));
+            }
+            ops.push(Op::Convert(10.0));
+            ops.push(Op::Convert(9.99));
+            ops.push(Op::Allow(vec![11]));
+            ops.push(Op::Convert(10.3));
+            ops.push(Op::Convert(9.93));
+            run_and_record(&History { ops }, want, &mut rep, false);
+            rep.count("quant.top_of_range_histories", 1);
         }
         rep
     })
@@ -1107,9 +1181,12 @@ pub fn run_c08(ctx: &Ctx) -> Report {
     let t = std::time::Instant::now();
     let r = c08_edit_paths(ctx, &all, &grid);
     stage("quant.c08.scales_built_by_edit_paths", r, &mut rep, t);
+    // (a3) first conversions after edit preludes, swept finely (a placeholder cached note must not act as history)
+    let t = std::time::Instant::now();
+    stage("quant.c08.first_conversions_after_edits", first_conversions(ctx, "C08"), &mut rep, t);
     // (b) out-of-range and special inputs (not ascending: monotonicity is only judged on rising pairs)
     let t = std::time::Instant::now();
-    let special: Vec<f32> = vec![f32::NEG_INFINITY, -1e30, -1.0, -1e-6, -0.0, 0.0, 1e-45, 1e-7, 9.999_999, 10.0, 10.000_001, 10.5, 11.0, 1e30, f32::INFINITY, f32::NAN];
+    let special: Vec<f32> = vec![f32::NEG_INFINITY, f32::MIN, -3.0e38, -1e30, -1.0, -1e-6, -0.0, 0.0, 1e-45, 1e-7, 9.999_999, 10.0, 10.000_001, 10.5, 11.0, 1e30, 3.0e38, f32::MAX, f32::INFINITY, f32::NAN];
     let r = c08_sweep(ctx, &all, &|j| special.get(j).copied(), "special_inputs");
     stage("quant.c08.all_scales_x_special_inputs", r, &mut rep, t);
     // (c) microvolt sweep: every microvolt (thorough) or a seed-offset stride (quick)
@@ -1159,6 +1236,8 @@ pub fn run(ctx: &Ctx, prop: &str) -> Report {
     stage("quant.sequences", sequences(ctx, prop), &mut rep, t);
     let t = std::time::Instant::now();
     stage("quant.first_conversions_after_edits", first_conversions(ctx, prop), &mut rep, t);
+    let t = std::time::Instant::now();
+    stage("quant.exact_ties_and_top_of_range", ties_and_top(ctx, prop), &mut rep, t);
     let t = std::time::Instant::now();
     stage("quant.random_histories", random(ctx, prop), &mut rep, t);
     let t = std::time::Instant::now();
